@@ -181,7 +181,13 @@ def r_put_dispatch(rep, prog):
                   "put_small|toggle-args", "toggle(frame, order, expected = true)",
                   "put_small toggles (%s, %s, %s)" % (T.show(a[1]), T.show(a[2]), T.show(a[3])), tt["span"])
         bf = a[0]
-        rep.check(T.mentions_call(bf, "llfree::FrameId::as_huge") and T.mentions_param(bf, "frame"), rule, "put_small|bitfield-of-frame",
+        okbf = T.mentions_call(bf, "llfree::FrameId::as_huge") and T.mentions_param(bf, "frame")
+        if not okbf:
+            # the same huge frame number spelled differently (frame.0 / HUGE_FRAMES, ...)
+            sel = [x for x in T.walk(bf) if x[0] == "call" and x[1] == "llfree::lower::Lower::bitfield"]
+            fp = [x for x in T.walk(a[1]) if x[0] == "p"]
+            okbf = bool(sel) and bool(fp) and lib.index_eq(prog, sel[0][2][1], ("call", "llfree::FrameId::as_huge", (fp[0],), None))
+        rep.check(okbf, rule, "put_small|bitfield-of-frame",
                   "bitfield of the frame's huge frame", "put_small toggles the bitfield %s" % T.show(bf), tt["span"])
         states = ps.states_at(ub)
         bad = [e for _, e in states if e.get(("c", tb)) != 0]
